@@ -85,7 +85,7 @@ PROPS = {
                     'OrderedFloat is a total order (order-embedding fkey into the integers, uninterpreted)',
                     'requires nodes_ok: Item keys hold leaves, Tree keys hold tree nodes whose children are Tree/Item references (local part of the C01 forest invariant)'],
         'not_decided': ['by_item(id) = by_vector(vector of id): both call nns_by_leaf whose contract mentions the query only through built_spec(query leaf, .); that new_header recomputes the header fields read by built_distance is not proved',
-                        'every returned id is in reader.item_ids(): needs metadata.items = item key set (C01 build contract)'],
+                        ],
     },
     'C04': {
         'verus': {'tree_insert': TREE_INSERT, 'tree_make': TREE_MAKE, 'reader_search': ['Reader::nns_by_leaf']},
